@@ -31,3 +31,4 @@ Definition config_accept_x := config_accept.
 Definition valid_hash_x := valid_hash.
 Definition ka_run_x := ka_run.
 Definition feed_x := feed.
+Definition encode_x := encode.
